@@ -290,6 +290,12 @@ func VH_C01_nested_optional(kind, shape int) {
 	case 2:
 		when = map[string]interface{}{"a": map[string]interface{}{"e": map[string]interface{}{"b": "??x"}}, "c": s}
 		event = map[string]interface{}{"a": map[string]interface{}{"e": map[string]interface{}{}}, "c": s}
+	case 3: // inside a map that is an array element
+		when = map[string]interface{}{"a": []interface{}{map[string]interface{}{"c": s, "b": "??x"}}}
+		event = map[string]interface{}{"a": []interface{}{map[string]interface{}{"c": s}}}
+	case 4:
+		when = map[string]interface{}{"a": []interface{}{map[string]interface{}{"b": "??x"}}, "c": s}
+		event = map[string]interface{}{"a": []interface{}{map[string]interface{}{}}, "c": s}
 	}
 	_, err := env.state.Add(env.ctx, "r", vhRuleFact(when))
 	vassume(err == nil)
@@ -300,6 +306,37 @@ func VH_C01_nested_optional(kind, shape int) {
 	if len(bss) > 0 {
 		_, found := rs["r"]
 		vassert(found, "matching-pattern-found")
+	}
+	vreach("end")
+}
+
+// VH_C02_nested_optional (C02): the same for fact search: a pattern whose optional variable
+// sits inside a nested map or inside a map that is an array element, against a stored fact
+// lacking that property. The search finds the fact iff the matcher matches it, on both states.
+func VH_C02_nested_optional(kind, shape int) {
+	env := vhNewEnv(kind)
+	s := vsymStrN("c", 3)
+	vassume(!IsVariable(s))
+	var pattern, fact map[string]interface{}
+	switch shape {
+	case 0:
+		pattern = map[string]interface{}{"a": map[string]interface{}{"b": "??x"}, "c": s}
+		fact = map[string]interface{}{"a": map[string]interface{}{}, "c": s}
+	case 1:
+		pattern = map[string]interface{}{"a": []interface{}{map[string]interface{}{"c": s, "b": "??x"}}}
+		fact = map[string]interface{}{"a": []interface{}{map[string]interface{}{"c": s}}}
+	case 2:
+		pattern = map[string]interface{}{"a": []interface{}{map[string]interface{}{"b": "??x"}}, "c": s}
+		fact = map[string]interface{}{"a": []interface{}{map[string]interface{}{}}, "c": s}
+	}
+	_, err := env.state.Add(env.ctx, "f", Map(fact))
+	vassume(err == nil)
+	bss, merr := Matches(env.ctx, pattern, fact)
+	vassume(merr == nil)
+	srs, serr := env.state.Search(env.ctx, Map(pattern))
+	vassert(serr == nil && srs != nil, "search-no-error")
+	if serr == nil && srs != nil {
+		vassert((len(srs.Found) == 1) == (len(bss) > 0), "search-result-is-stored-matching-fact")
 	}
 	vreach("end")
 }
